@@ -103,6 +103,7 @@ class Interp:
         self.all_insts = []
         self.assume = {}  # tag -> bool for conditions the context fixes
         self.strict_shapes = True
+        self._last_comp_iter = None
         self.sticky = False  # one outcome per branch site per path (coarser partition, fewer paths)
         self.sticky_memo = {}
         self.stubs = {}  # qualname -> fn(interp, func, args, kwargs, node) -> V
@@ -781,6 +782,7 @@ class Interp:
             items = self.concrete_items(it)
             if items is None or len(items) > 64:
                 # abstract: one generic element
+                self._last_comp_iter = _count_term(it)
                 self.assign(g.target, self.loop_elem(it, False, node), node)
                 for c in g.ifs:
                     self.eval(c)
@@ -820,6 +822,7 @@ class Interp:
         if not concrete:
             lv.obj.elem = out[0] if out else None
             lv.obj.comp_node = node
+            lv.obj.comp_iter = self._last_comp_iter
         return lv
 
     def ev_GeneratorExp(self, node):
@@ -1257,6 +1260,9 @@ class Interp:
         if all(s[0] == "op" and s[1] in ("unsq", "sq", "view", "to") for s in view):
             obj.term = T.P(T.App("unview", (newterm, tuple(s[1:] for s in view))))
             return
+        if len(view) == 1 and view[0][0] == "index":
+            obj.term = T.app("upd", obj.term, view[0][1], newterm)
+            return
         spec = tuple(view)
         obj.term = T.P(T.App("upd", (obj.term, spec, newterm)))
 
@@ -1276,7 +1282,7 @@ class Interp:
                 self.effect("write", base.obj, node, "advanced subscript store")
                 spec = self.ops.index_spec(self, idx, node)
                 if base.obj.term is not None and nt is not None and not base.view:
-                    base.obj.term = T.P(T.App("upd", (base.obj.term, (("index", spec),), nt)))
+                    base.obj.term = T.app("upd", base.obj.term, spec, nt)
                 else:
                     base.obj.term = None
             return
